@@ -439,7 +439,7 @@ def program_level(ctx, info):
         progs.append(("corpus:" + os.path.basename(p), {"src": o["src"], "threads": o.get("threads", [])}))
     for name, body in untypedgen.TARGETED:
         progs.append(("targeted:" + name, untypedgen.targeted_program(name, body)))
-    nrand = 250 if quick else 45000
+    nrand = 1000 if quick else 45000
     for i in range(nrand):
         progs.append(("random:%d" % i, gen.program()))
     ctx.stats["programs"] = len(progs)
